@@ -36,13 +36,12 @@ CountOf(s, c) == LET RECURSIVE f(_) f(i) == IF i > Len(s) THEN 0 ELSE (IF s[i] =
 
 TokLaws ==
     LET T == Tokenize(str) IN
-    \* escaping makes any string exactly one word, in every style
-    /\ \A st \in {0, 1, 2} : Tokenize(EscapeAuto(str, st)) = [open |-> FALSE, toks |-> <<Word(str)>>]
+    \* escaping makes any string exactly one word, quoted and bare (every token text is itself such a string)
+    /\ \A st \in {0, 1} : Tokenize(Escape(str, st)) = [open |-> FALSE, toks |-> <<Word(str)>>]
+    /\ EscapeAuto(str, 2) \in {Escape(str, 0), str}
     \* blanks separate, parentheses are tokens of their own: tokenizing is compositional
     /\ ~T.open => /\ Tokenize(str \o <<SP, 1>>) = [open |-> FALSE, toks |-> Append(T.toks, Word(<<1>>))]
-                  /\ Tokenize(<<1, SP>> \o str) = [open |-> FALSE, toks |-> <<Word(<<1>>)>> \o T.toks]
-                  /\ Tokenize(<<PO>> \o str \o <<PC>>) = [open |-> FALSE, toks |-> <<Paren(PO)>> \o T.toks \o <<Paren(PC)>>]
-                  /\ \A k \in 1..Len(T.toks) : T.toks[k].p = 0 => Tokenize(EscapeAuto(T.toks[k].x, 2)).toks = <<T.toks[k]>>
+                  /\ Tokenize(<<PO, 1, SP>> \o str \o <<PC>>) = [open |-> FALSE, toks |-> <<Paren(PO), Word(<<1>>)>> \o T.toks \o <<Paren(PC)>>]
     \* without quotes and backslashes nothing is open and no character is lost or invented
     /\ Plain(str) => ~T.open /\ SumLen(T.toks) + CountOf(str, SP) = Len(str)
 
@@ -57,6 +56,8 @@ LeafFamily ==
   \cup {Leaf(key, "matches", ReV(a, s)) : key \in {KXY, KE}, a \in 0..3, s \in ReLits}
   \cup {Leaf(key, "is", BoolV(b)) : key \in {KYX, KX, KM}, b \in BOOLEAN}
   \cup {Leaf(key, "exists", NoV) : key \in {QKeys[k] : k \in 1..Len(QKeys)}}
+  \* keys that read like a token of the grammar: "(" and ")"  (and, or, not cannot be spelled in the alphabet)
+  \cup {Leaf(key, op, IF op = "eq" THEN IntV(4) ELSE NoV) : key \in {<<PO>>, <<PC>>}, op \in {"exists", "eq"}}
 
 Partner1 == Leaf(KX, "gt", IntV(3))
 Partner2 == Not(Leaf(KS, "sameas", StrV(<<1>>)))
@@ -103,12 +104,15 @@ Balanced(lex) == LET RECURSIVE cnt(_, _) cnt(i, w) == IF i > Len(lex) THEN 0 ELS
 SemLaws ==
     /\ WellFormed(ast)
     /\ Balanced(QueryLex(ast, <<10, 13>>, <<>>, 0, 0, ZeroRV, 0))
-    /\ \A i \in 1..Len(JW) :
-         LET r == JW[i] IN
-         /\ Matches(ast, r) \in Allowed(ast, r)
-         /\ Matches(Not(ast), r) = ~Matches(ast, r)
+    /\ LET jw == JW IN \A i \in 1..Len(jw) :
+         LET r == jw[i]
+             m == Matches(ast, r)
+         IN
+         /\ Conforms(m, ast, r)                              \* the strict meaning is one of the allowed answers
+         /\ MustMatch(ast, r) => MayMatch(ast, r)
+         /\ Allowed(ast, r) # {}
+         /\ Matches(Not(Not(ast)), r) = m
          /\ Allowed(Not(ast), r) = {~b : b \in Allowed(ast, r)}
-         /\ Matches(Not(Not(ast)), r) = Matches(ast, r)
          /\ ast.k = "leaf" => LeafLaws(ast, r)
          /\ ast.k = "and" => Matches(Not(ast), r) = Matches(Or([j \in 1..Len(ast.sub) |-> Not(ast.sub[j])]), r)
          /\ ast.k = "or"  => Matches(Not(ast), r) = Matches(And([j \in 1..Len(ast.sub) |-> Not(ast.sub[j])]), r)
